@@ -186,9 +186,12 @@ class ZbossNcpProtocol(asyncio.Protocol):
                     Frame.signature.serialize(), 1)
 
                 if signature_idx < 0:
-                    # If we don't have a signature in the buffer,
-                    # drop everything
-                    self._buffer.clear()
+                    # If we don't have a signature in the buffer, drop
+                    # everything but a trailing first signature byte: the
+                    # signature may be split between two reads
+                    signature = Frame.signature.serialize()
+                    keep = self._buffer[1:].endswith(signature[:1])
+                    del self._buffer[:len(self._buffer) - keep]
                 else:
                     del self._buffer[:signature_idx]
 
